@@ -59,14 +59,32 @@ def sqrtEps : α := (1 : α) / RealLike.ofNat 67108864
 /-- `ε = 2⁻⁵²` -/
 def eps : α := (1 : α) / RealLike.ofNat 4503599627370496
 
-/-- `Math::tauf` (`numit = 5`) -/
+/-- `Math::tauf` (`numit = 50` since 707b423) -/
 def tauf (taup es : α) : α :=
   let tol : α := sqrtEps / 10
   let taumax : α := (2 : α) / sqrtEps
   let e2m := (1 : α) - es * RealLike.abs es
   let tau := if RealLike.ltb (70 : α) (RealLike.abs taup) then taup * RealLike.exp (eatanhe (1 : α) es) else taup / e2m
   let stol := tol * RealLike.max (1 : α) (RealLike.abs taup)
-  if !(RealLike.ltb (RealLike.abs tau) taumax) then tau else taufLoop taup es e2m stol 5 tau
+  -- (the early exit is taken only with the asymptotic guess, |taup| > 70: b3c5a1d)
+  if !(RealLike.ltb (RealLike.abs tau) taumax) && !(RealLike.leb (RealLike.abs taup) (70 : α)) then tau else taufLoop taup es e2m stol 50 tau
+
+/-- did the Newton loop of `Math::tauf` stop by its tolerance (and not by the iteration cap)?  The cap is silent in the
+    code (`GEOGRAPHICLIB_PANIC` is `false` for binary64): the correspondence compares values only where the coded loop
+    terminated by its own criterion -/
+def taufLoopConv (taup es e2m stol : α) : Nat → α → Bool
+  | 0, _ => false
+  | n + 1, tau =>
+    let dtau := taufDelta taup es e2m tau
+    if !(RealLike.leb stol (RealLike.abs dtau)) then true else taufLoopConv taup es e2m stol n (tau + dtau)
+
+def taufConv (taup es : α) : Bool :=
+  let tol : α := sqrtEps / 10
+  let taumax : α := (2 : α) / sqrtEps
+  let e2m := (1 : α) - es * RealLike.abs es
+  let tau := if RealLike.ltb (70 : α) (RealLike.abs taup) then taup * RealLike.exp (eatanhe (1 : α) es) else taup / e2m
+  let stol := tol * RealLike.max (1 : α) (RealLike.abs taup)
+  if !(RealLike.ltb (RealLike.abs tau) taumax) && !(RealLike.leb (RealLike.abs taup) (70 : α)) then true else taufLoopConv taup es e2m stol 50 tau
 
 /-! ## PolarStereographic -/
 
@@ -122,6 +140,12 @@ def psReverse (tauf : α → α → α) (P : PS α) (northp : Bool) (x y : α) :
   let k := if !(RealLike.eqb rho (0 : α)) then psScale P rho tau else P.k0
   ⟨tau, x, if northp then -y else y, k⟩
 
+/-- the conformal tangent `Reverse` hands to `tauf` -/
+def psTaup (P : PS α) (x y : α) : α :=
+  let rho := RealLike.hypot x y
+  let t := if !(RealLike.eqb rho (0 : α)) then rho / P.r else sq (eps : α)
+  ((1 : α) / t - t) / 2
+
 /-- `PolarStereographic::SetScale`: the new `_k0` (after the range checks) -/
 def psSetScale (P : PS α) (pole : Bool) (tau k : α) : α :=
   let kold := (psForward { P with k0 := (1 : α) } true pole tau (0 : α) (1 : α)).k
@@ -167,7 +191,10 @@ def Dasinh (x y hx hy : α) : α :=
 def Deatanhe (e2 es x y : α) : α :=
   let t := x - y
   let d := (1 : α) - e2 * x * y
-  if !(RealLike.eqb t (0 : α)) then eatanhe (t / d) es / t else e2 / d
+  -- (for `x·y < 0` the straight difference, as `AlbersEqualArea::Datanhee`: 36a144d)
+  if !(RealLike.eqb t (0 : α)) then
+    (if RealLike.ltb (x * y) (0 : α) then eatanhe x es - eatanhe y es else eatanhe (t / d) es) / t
+  else e2 / d
 
 /-- `AlbersEqualArea::atanhee(x)` (`e = √|e²|`) -/
 def atanhee (f e x : α) : α :=
